@@ -193,8 +193,9 @@ Flush(w) ==
     /\ At(w, "writing")
     /\ Content(w) < pc[w].b
     /\ SetContent(w, Content(w) + 1)
+    /\ fv' = IF IntoFinal(w) THEN [fv EXCEPT ![pc[w].k] = pc[w].v] ELSE fv   \* whose result the final path is getting
     /\ fresh' = FALSE
-    /\ UNCHANGED <<conf, mem, pc, taken, res, computed, status, verify, crashes, snaps>>
+    /\ UNCHANGED <<conf, fn, memo, clears, extra, ops, pc, taken, res, computed, status, verify, crashes, snaps>>
 
 \* close() flushes whatever is still buffered
 Close(w) ==
